@@ -259,7 +259,42 @@ func C04(ctx *core.Ctx) {
 		var mk *ssa.MakeSlice
 		var put ssax.Call
 		var copies []ssax.Call
-		ssax.Instrs(ah, func(in ssa.Instruction) {
+		// the function that lays the new frame out: addHeadersToFrame itself or
+		// the helper it hands the frame and the merged map to
+		L := ah
+		var lcall *ssa.Call
+		for _, c := range ssax.Calls(ah) {
+			g := c.Static
+			if g == nil || g.Pkg != r.Pkg || g == enc || g == calc || g == dec || len(g.Blocks) == 0 {
+				continue
+			}
+			for _, c2 := range ssax.Calls(g) {
+				if cc, isCall := c.Instr.(*ssa.Call); isCall && c2.Static == enc {
+					L, lcall = g, cc
+				}
+			}
+		}
+		up := func(v ssa.Value) ssa.Value {
+			v = ssax.Strip(v)
+			if q, isP := v.(*ssa.Parameter); isP && lcall != nil {
+				for i, lp := range L.Params {
+					if lp == q && i < len(lcall.Call.Args) {
+						return ssax.Strip(lcall.Call.Args[i])
+					}
+				}
+			}
+			return v
+		}
+		var frameP ssa.Value = ah.Params[1]
+		if lcall != nil {
+			frameP = nil
+			for i, a := range lcall.Call.Args {
+				if ssax.Strip(a) == ssa.Value(ah.Params[1]) && i < len(L.Params) {
+					frameP = L.Params[i]
+				}
+			}
+		}
+		ssax.Instrs(L, func(in ssa.Instruction) {
 			if m, ok := in.(*ssa.MakeSlice); ok {
 				mk = m
 			}
@@ -269,9 +304,9 @@ func C04(ctx *core.Ctx) {
 			}
 			switch {
 			case c.Static == enc:
-				marshalArg = ssax.Strip(c.Common.Args[1])
+				marshalArg = up(c.Common.Args[1])
 			case c.Static == calc:
-				calcArg, calcCall = ssax.Strip(c.Common.Args[1]), in.(ssa.Value)
+				calcArg, calcCall = up(c.Common.Args[1]), in.(ssa.Value)
 			case strings.HasSuffix(c.FullName(), ".Uint32"):
 				oldSize = in.(ssa.Value)
 			case strings.HasSuffix(c.FullName(), ".PutUint32"):
@@ -291,11 +326,11 @@ func C04(ctx *core.Ctx) {
 		ctx.Check(merged, "C04.S7", an+" › serialises the frame's headers merged with the added ones", fnPos(r, ah), "existing[name] = value for every added header, then marshalHeaders(existing)", "the rewritten frame does not carry the union of the old and the added headers")
 		ctx.Check(marshalArg != nil && calcArg == marshalArg, "C04.S7", an+" › frame size is computed from the same (merged) map that is serialised", fnPos(r, ah), "calculateHeaderSize(existing) and marshalHeaders(existing)", "the new frame size is computed from a different header map than the one written (e.g. the added headers only): when an added name already exists the frame is too large, its size prefix is wrong and zero bytes are appended to the payload")
 		okLay := false
-		if mk != nil && calcCall != nil && oldSize != nil && put.Instr != nil && len(copies) == 2 {
+		if mk != nil && calcCall != nil && oldSize != nil && put.Instr != nil && len(copies) == 2 && frameP != nil {
 			e := pr.EnvAt(copies[1].Instr.(ssa.Instruction))
 			T := e.Term
 			size := T(mk.Len)
-			want := T(calcCall).Add(e.LenOf(ah.Params[1])).Sub(T(oldSize))
+			want := T(calcCall).Add(e.LenOf(frameP)).Sub(T(oldSize))
 			d1, ok1 := copies[0].Common.Args[0].(*ssa.Slice)
 			d2, ok2 := copies[1].Common.Args[0].(*ssa.Slice)
 			s2, ok3 := copies[1].Common.Args[1].(*ssa.Slice)
@@ -305,7 +340,7 @@ func C04(ctx *core.Ctx) {
 					ssax.Strip(put.Common.Args[1]) == ssa.Value(mk) &&
 					termEq(T(d1.Low), lin.Const(4)) &&
 					termEq(T(d2.Low), lin.Const(4).Add(T(copies[0].Instr.Value()))) &&
-					ssax.Strip(s2.X) == ssa.Value(ah.Params[1]) && termEq(T(s2.Low), lin.Const(9).Add(T(oldSize)))
+					ssax.Strip(s2.X) == frameP && termEq(T(s2.Low), lin.Const(9).Add(T(oldSize)))
 			}
 		}
 		ctx.Check(okLay, "C04.S7", an+" › size prefix, header block and payload offsets", fnPos(r, ah), "len = size(merged)+len(frame)−oldSize; prefix = len−4; headers at 4; payload = frame[9+oldSize:] right after them", "the rewritten frame's size prefix / offsets do not follow the layout: the payload is shifted, truncated or padded")
@@ -373,92 +408,118 @@ func C04(ctx *core.Ctx) {
 	}
 }
 
-func c04Encoder(ctx *core.Ctx, r *RT, pr *bounds.Prover, enc, calc *ssa.Function) {
-	en := ssax.Name(enc)
-	ret := enc.Blocks[len(enc.Blocks)-1].Instrs[0]
-	for _, b := range enc.Blocks {
-		if _, ok := b.Instrs[len(b.Instrs)-1].(*ssa.Return); ok {
-			ret = b.Instrs[len(b.Instrs)-1]
+// codecHelper: helpers whose body may hold one half of the per-pair codec
+// (small, loop-free functions taking the byte buffer).
+func codecHelper(g *ssa.Function) bool {
+	if len(g.Blocks) > 12 {
+		return false
+	}
+	for _, b := range g.Blocks {
+		for _, s := range b.Succs {
+			if s.Dominates(b) {
+				return false // a loop
+			}
 		}
 	}
-	_ = ret
-	// events in instruction order: Put(lo,hi,x) and Copy(lo,x,n)
+	for _, p := range g.Params {
+		if sl, ok := p.Type().Underlying().(*types.Slice); ok {
+			if e, ok := sl.Elem().Underlying().(*types.Basic); ok && e.Kind() == types.Byte {
+				return true
+			}
+		}
+	}
+	return false
+}
+
+func c04Encoder(ctx *core.Ctx, r *RT, pr *bounds.Prover, enc, calc *ssa.Function) {
+	en := ssax.Name(enc)
+	// events in instruction order: Put(lo,hi,x) and Copy(lo,x,n); an event may
+	// sit in a helper called from the loop body (flattened view)
 	type ev struct {
 		kind string
+		f    flatInstr
 		lo   ssa.Value
 		hi   ssa.Value
-		x    ssa.Value
-		n    ssa.Value
-		in   ssa.Instruction
+		x    ssa.Value // the string whose length is announced / which is copied (caller's value)
+		n    ssa.Value // put: the value written when it is not a len(); copy: the copy's result
 	}
 	var loopEvs []ev
 	var sizePut *ev
 	var mk *ssa.MakeSlice
-	ssax.Instrs(enc, func(in ssa.Instruction) {
-		if m, ok := in.(*ssa.MakeSlice); ok {
+	for _, f := range flatten(enc, func(g *ssa.Function) bool { return g != calc && codecHelper(g) }) {
+		in := f.In
+		if m, ok := in.(*ssa.MakeSlice); ok && f.Call == nil {
 			mk = m
 		}
 		c, ok := ssax.AsCall(in)
 		if !ok {
-			return
+			continue
 		}
 		switch {
 		case strings.HasSuffix(c.FullName(), ".PutUint32"):
 			sl, ok := c.Common.Args[1].(*ssa.Slice)
 			if !ok {
-				return
+				continue
 			}
 			val := ssax.Strip(c.Common.Args[2])
 			if cv, ok := val.(*ssa.Convert); ok {
 				val = ssax.Strip(cv.X)
 			}
-			e := ev{kind: "put", lo: sl.Low, hi: sl.High, in: in}
+			e := ev{kind: "put", f: f, lo: sl.Low, hi: sl.High}
 			if lc, ok := CallValue(val); ok && lc.FullName() == "builtin.len" {
-				e.x = ssax.Strip(lc.Common.Args[0])
+				e.x = f.up(lc.Common.Args[0])
 			} else {
 				e.n = val
 			}
-			if inCycle(in) {
+			if inCycle(f.at()) {
 				loopEvs = append(loopEvs, e)
-			} else {
-				sizePut = &e
+			} else if f.Call == nil {
+				e2 := e
+				sizePut = &e2
 			}
 		case c.FullName() == "builtin.copy":
 			sl, ok := c.Common.Args[0].(*ssa.Slice)
 			if !ok {
-				return
+				continue
 			}
-			if inCycle(in) {
-				loopEvs = append(loopEvs, ev{kind: "copy", lo: sl.Low, x: ssax.Strip(c.Common.Args[1]), n: in.(ssa.Value), in: in})
+			if inCycle(f.at()) {
+				loopEvs = append(loopEvs, ev{kind: "copy", f: f, lo: sl.Low, x: f.up(c.Common.Args[1]), n: in.(ssa.Value)})
 			}
 		}
-	})
+	}
 	ok := len(loopEvs) == 4 && loopEvs[0].kind == "put" && loopEvs[1].kind == "copy" && loopEvs[2].kind == "put" && loopEvs[3].kind == "copy"
 	if !ok {
 		ctx.Violate("C04.S4", en+" › per-pair sequence prefix,name,prefix,value", fnPos(r, enc), "the encoder loop is not: length prefix, name bytes, length prefix, value bytes")
 		return
 	}
-	e := pr.EnvAt(loopEvs[3].in)
-	T := e.Term
+	e := pr.EnvAt(loopEvs[3].f.at())
+	lifted := true
+	T := func(x ev, v ssa.Value) lin.Term {
+		t, ok := x.f.term(e, v)
+		if !ok {
+			lifted = false
+		}
+		return t
+	}
 	p1, c1, p2, c2 := loopEvs[0], loopEvs[1], loopEvs[2], loopEvs[3]
 	// key/value come from the same range entry
 	kx, ok1 := p1.x.(*ssa.Extract)
 	vx, ok2 := p2.x.(*ssa.Extract)
-	ctx.Check(ok1 && ok2 && kx.Tuple == vx.Tuple && kx.Index == 1 && vx.Index == 2, "C04.S4", en+" › name then value of the same entry", r.IPos(p1.in), "first prefix is len(name), second len(value) of one map entry", "the pair is not written as (name, value) of one header entry")
-	ctx.Check(termEq(T(p1.hi).Sub(T(p1.lo)), lin.Const(4)) && termEq(T(p2.hi).Sub(T(p2.lo)), lin.Const(4)), "C04.S4", en+" › length prefixes are 4 bytes wide", r.IPos(p1.in), "hi − lo = 4 for both prefixes", "a length prefix is not 4 bytes wide")
-	ctx.Check(c1.x == p1.x && c2.x == p2.x, "C04.S4", en+" › each prefix holds the length of the string copied after it", r.IPos(c1.in), "PutUint32(len(x)) followed by copy(…, x) for the same x", "a length prefix announces the length of a different string than the one written after it")
-	ctx.Check(termEq(T(c1.lo), T(p1.hi)) && termEq(T(c2.lo), T(p2.hi)), "C04.S4", en+" › payload starts where its prefix ends", r.IPos(c1.in), "copy offset = prefix end", "payload bytes do not start right after their length prefix")
-	ctx.Check(termEq(T(p2.lo), T(c1.lo).Add(T(c1.n))), "C04.S4", en+" › value prefix starts where the name ends", r.IPos(p2.in), "offset continuity", "gap or overlap between the name bytes and the value prefix")
+	ctx.Check(ok1 && ok2 && kx.Tuple == vx.Tuple && kx.Index == 1 && vx.Index == 2, "C04.S4", en+" › name then value of the same entry", r.IPos(p1.f.at()), "first prefix is len(name), second len(value) of one map entry", "the pair is not written as (name, value) of one header entry")
+	ctx.Check(termEq(T(p1, p1.hi).Sub(T(p1, p1.lo)), lin.Const(4)) && termEq(T(p2, p2.hi).Sub(T(p2, p2.lo)), lin.Const(4)) && lifted, "C04.S4", en+" › length prefixes are 4 bytes wide", r.IPos(p1.f.In), "hi − lo = 4 for both prefixes", "a length prefix is not 4 bytes wide")
+	ctx.Check(c1.x == p1.x && c2.x == p2.x, "C04.S4", en+" › each prefix holds the length of the string copied after it", r.IPos(c1.f.In), "PutUint32(len(x)) followed by copy(…, x) for the same x", "a length prefix announces the length of a different string than the one written after it")
+	ctx.Check(termEq(T(c1, c1.lo), T(p1, p1.hi)) && termEq(T(c2, c2.lo), T(p2, p2.hi)) && lifted, "C04.S4", en+" › payload starts where its prefix ends", r.IPos(c1.f.In), "copy offset = prefix end", "payload bytes do not start right after their length prefix")
+	ctx.Check(termEq(T(p2, p2.lo), T(c1, c1.lo).Add(T(c1, c1.n))) && lifted, "C04.S4", en+" › value prefix starts where the name ends", r.IPos(p2.f.In), "offset continuity", "gap or overlap between the name bytes and the value prefix")
 	// loop phi
 	var phi *ssa.Phi
-	if ph, ok := ssax.Strip(p1.lo).(*ssa.Phi); ok {
+	if ph, ok := p1.f.up(p1.lo).(*ssa.Phi); ok {
 		phi = ph
 	}
 	okPhi := false
 	if phi != nil {
 		for i, ed := range phi.Edges {
 			if phi.Block().Dominates(phi.Block().Preds[i]) {
-				okPhi = termEq(T(ed), T(c2.lo).Add(T(c2.n)))
+				okPhi = termEq(e.Term(ed), T(c2, c2.lo).Add(T(c2, c2.n)))
 			}
 		}
 		for i, ed := range phi.Edges {
@@ -469,10 +530,10 @@ func c04Encoder(ctx *core.Ctx, r *RT, pr *bounds.Prover, enc, calc *ssa.Function
 			}
 		}
 	}
-	ctx.Check(okPhi, "C04.S4", en+" › next pair starts where the value ends; first pair at 5", r.IPos(p1.in), "i = φ(5, value end)", "pairs are not laid out contiguously from offset 5")
+	ctx.Check(okPhi && lifted, "C04.S4", en+" › next pair starts where the value ends; first pair at 5", r.IPos(p1.f.at()), "i = φ(5, value end)", "pairs are not laid out contiguously from offset 5")
 	// advance per pair = 8 + n1 + n2 ; calc sums 8 + len(k) + len(v)
-	adv := T(c2.lo).Add(T(c2.n)).Sub(T(p1.lo))
-	want := lin.Const(8).Add(T(c1.n)).Add(T(c2.n))
+	adv := T(c2, c2.lo).Add(T(c2, c2.n)).Sub(T(p1, p1.lo))
+	want := lin.Const(8).Add(T(c1, c1.n)).Add(T(c2, c2.n))
 	okCalc := false
 	ssax.Instrs(calc, func(in ssa.Instruction) {
 		if ph, ok := in.(*ssa.Phi); ok {
@@ -494,11 +555,11 @@ func c04Encoder(ctx *core.Ctx, r *RT, pr *bounds.Prover, enc, calc *ssa.Function
 			}
 		}
 	})
-	ctx.Check(termEq(adv, want) && okCalc, "C04.S4", en+" › per-pair advance = 8+len(name)+len(value) = what calculateHeaderSize sums", r.IPos(c2.in), "advance 8+n(name)+n(value); size += 8+len(k)+len(v)", "the size announced in the header and the bytes actually written per pair disagree")
+	ctx.Check(termEq(adv, want) && okCalc && lifted, "C04.S4", en+" › per-pair advance = 8+len(name)+len(value) = what calculateHeaderSize sums", r.IPos(c2.f.In), "advance 8+n(name)+n(value); size += 8+len(k)+len(v)", "the size announced in the header and the bytes actually written per pair disagree")
 	// header: make(size+5), size prefix at [1:5] = size
 	okHdr := false
 	if mk != nil && sizePut != nil {
-		he := pr.EnvAt(sizePut.in)
+		he := pr.EnvAt(sizePut.f.In)
 		var size ssa.Value
 		for _, c := range ssax.Calls(enc) {
 			if c.Static == calc {
@@ -519,32 +580,46 @@ func c04Decoder(ctx *core.Ctx, r *RT, pr *bounds.Prover, dec *ssa.Function) {
 		if _, ok := p.Type().Underlying().(*types.Slice); ok {
 			buff = p
 		}
-		if p.Name() == "end" {
-			endP = p
-		}
 	}
-	// loop bound: the parameter compared with the loop phi
-	type rd struct {
-		kind string // prefix | payload
-		sl   *ssa.Slice
-		val  ssa.Value // prefix: the Uint32 result (converted); payload: the string value
-		in   ssa.Instruction
-	}
-	var evs []rd
+	// loop bound: the parameter the loop counter is compared with (`for i < end`)
 	ssax.Instrs(dec, func(in ssa.Instruction) {
-		if c, ok := ssax.AsCall(in); ok && strings.HasSuffix(c.FullName(), ".Uint32") {
-			if sl, ok := c.Common.Args[1].(*ssa.Slice); ok && ssax.Strip(sl.X) == ssa.Value(buff) {
-				evs = append(evs, rd{"prefix", sl, in.(ssa.Value), in})
-			}
+		bo, ok := in.(*ssa.BinOp)
+		if !ok || bo.Op != token.LSS && bo.Op != token.LEQ {
+			return
 		}
-		if cv, ok := in.(*ssa.Convert); ok {
-			if sl, ok := cv.X.(*ssa.Slice); ok && ssax.Strip(sl.X) == ssa.Value(buff) {
-				if b, isB := cv.Type().Underlying().(*types.Basic); isB && b.Kind() == types.String {
-					evs = append(evs, rd{"payload", sl, cv, in})
-				}
+		ph, isPhi := bo.X.(*ssa.Phi)
+		q, isParam := bo.Y.(*ssa.Parameter)
+		if !isPhi || !isParam || !inCycle(ph) {
+			return
+		}
+		for _, u := range *bo.Referrers() {
+			if _, isIf := u.(*ssa.If); isIf {
+				endP = q
 			}
 		}
 	})
+	type rd struct {
+		kind string // prefix | payload
+		f    flatInstr
+		sl   *ssa.Slice
+		val  ssa.Value // prefix: the Uint32 result; payload: the string value
+	}
+	var evs []rd
+	for _, f := range flatten(dec, codecHelper) {
+		in := f.In
+		if c, ok := ssax.AsCall(in); ok && strings.HasSuffix(c.FullName(), ".Uint32") {
+			if sl, ok := c.Common.Args[1].(*ssa.Slice); ok && f.up(sl.X) == ssa.Value(buff) {
+				evs = append(evs, rd{"prefix", f, sl, in.(ssa.Value)})
+			}
+		}
+		if cv, ok := in.(*ssa.Convert); ok {
+			if sl, ok := cv.X.(*ssa.Slice); ok && f.up(sl.X) == ssa.Value(buff) {
+				if b, isB := cv.Type().Underlying().(*types.Basic); isB && b.Kind() == types.String {
+					evs = append(evs, rd{"payload", f, sl, cv})
+				}
+			}
+		}
+	}
 	ok := len(evs) == 4 && evs[0].kind == "prefix" && evs[1].kind == "payload" && evs[2].kind == "prefix" && evs[3].kind == "payload"
 	if !ok {
 		ctx.Violate("C04.S4", dn+" › per-pair sequence prefix,name,prefix,value", fnPos(r, dec), "the decoder loop is not: length prefix, name bytes, length prefix, value bytes")
@@ -561,74 +636,131 @@ func c04Decoder(ctx *core.Ctx, r *RT, pr *bounds.Prover, dec *ssa.Function) {
 		return
 	}
 	e := pr.EnvAt(last)
-	T := e.Term
+	lifted := true
+	TE := func(env *bounds.Env, x rd, v ssa.Value) lin.Term {
+		t, ok := x.f.term(env, v)
+		if !ok {
+			lifted = false
+		}
+		return t
+	}
+	T := func(x rd, v ssa.Value) lin.Term { return TE(e, x, v) }
 	p1, s1, p2, s2 := evs[0], evs[1], evs[2], evs[3]
-	sizeOf := func(v ssa.Value) lin.Term { return T(v) }
-	ctx.Check(termEq(T(p1.sl.High).Sub(T(p1.sl.Low)), lin.Const(4)) && termEq(T(p2.sl.High).Sub(T(p2.sl.Low)), lin.Const(4)), "C04.S4", dn+" › length prefixes are 4 bytes wide", r.IPos(p1.in), "hi − lo = 4", "a length prefix is not read as 4 bytes")
-	ctx.Check(termEq(T(s1.sl.Low), T(p1.sl.High)) && termEq(T(s2.sl.Low), T(p2.sl.High)), "C04.S4", dn+" › payload starts where its prefix ended", r.IPos(s1.in), "payload lo = prefix hi", "payload is read from an offset other than right after its length prefix")
-	ctx.Check(termEq(T(s1.sl.High).Sub(T(s1.sl.Low)), sizeOf(p1.val)) && termEq(T(s2.sl.High).Sub(T(s2.sl.Low)), sizeOf(p2.val)), "C04.S4", dn+" › payload has exactly the length just read", r.IPos(s1.in), "hi − lo = decoded length", "a payload slice does not have the length announced by its prefix")
-	ctx.Check(termEq(T(p2.sl.Low), T(s1.sl.High)), "C04.S4", dn+" › value prefix starts where the name ended", r.IPos(p2.in), "offset continuity", "gap or overlap between name bytes and value prefix")
+	ctx.Check(termEq(T(p1, p1.sl.High).Sub(T(p1, p1.sl.Low)), lin.Const(4)) && termEq(T(p2, p2.sl.High).Sub(T(p2, p2.sl.Low)), lin.Const(4)) && lifted, "C04.S4", dn+" › length prefixes are 4 bytes wide", r.IPos(p1.f.In), "hi − lo = 4", "a length prefix is not read as 4 bytes")
+	ctx.Check(termEq(T(s1, s1.sl.Low), T(p1, p1.sl.High)) && termEq(T(s2, s2.sl.Low), T(p2, p2.sl.High)) && lifted, "C04.S4", dn+" › payload starts where its prefix ended", r.IPos(s1.f.In), "payload lo = prefix hi", "payload is read from an offset other than right after its length prefix")
+	ctx.Check(termEq(T(s1, s1.sl.High).Sub(T(s1, s1.sl.Low)), T(p1, p1.val)) && termEq(T(s2, s2.sl.High).Sub(T(s2, s2.sl.Low)), T(p2, p2.val)) && lifted, "C04.S4", dn+" › payload has exactly the length just read", r.IPos(s1.f.In), "hi − lo = decoded length", "a payload slice does not have the length announced by its prefix")
+	ctx.Check(termEq(T(p2, p2.sl.Low), T(s1, s1.sl.High)) && lifted, "C04.S4", dn+" › value prefix starts where the name ended", r.IPos(p2.f.In), "offset continuity", "gap or overlap between name bytes and value prefix")
 	okPhi := false
-	if phi, isPhi := ssax.Strip(p1.sl.Low).(*ssa.Phi); isPhi {
+	if phi, isPhi := p1.f.up(p1.sl.Low).(*ssa.Phi); isPhi {
 		for i, ed := range phi.Edges {
 			if phi.Block().Dominates(phi.Block().Preds[i]) {
 				be := pr.EnvAt(phi.Block().Preds[i].Instrs[len(phi.Block().Preds[i].Instrs)-1])
-				okPhi = termEq(be.Term(ed), be.Term(s2.sl.High))
+				okPhi = termEq(be.Term(ed), TE(be, s2, s2.sl.High))
 			}
 		}
 	}
-	ctx.Check(okPhi, "C04.S4", dn+" › next pair starts where the value ended", r.IPos(p1.in), "i = φ(start, value end)", "pairs are not decoded contiguously")
+	ctx.Check(okPhi && lifted, "C04.S4", dn+" › next pair starts where the value ended", r.IPos(p1.f.at()), "i = φ(start, value end)", "pairs are not decoded contiguously")
 	mu := last.(*ssa.MapUpdate)
-	ctx.Check(ssax.Strip(mu.Key) == s1.val && ssax.Strip(mu.Value) == s2.val, "C04.S4", dn+" › map entry is (name payload, value payload)", r.IPos(last), "headers[name] = value", "the decoded pair is stored with name and value swapped or from other data")
+	// the stored key/value are the payload strings (possibly as results of the helper)
+	isPayload := func(v ssa.Value, x rd) bool {
+		if x.f.Call == nil {
+			return ssax.Strip(v) == x.val
+		}
+		call, inner, ok := down(v)
+		return ok && call == x.f.Call && inner == x.val
+	}
+	ctx.Check(isPayload(mu.Key, s1) && isPayload(mu.Value, s2), "C04.S4", dn+" › map entry is (name payload, value payload)", r.IPos(last), "headers[name] = value", "the decoded pair is stored with name and value swapped or from other data")
 
 	// ---- S6 exactness of reject guards -------------------------------------------------------
 	if endP == nil {
 		ctx.Unresolved("C04.S6", dn+" end bound", "loop bound parameter not found")
 		return
 	}
-	// reject edges: If whose successor returns a non-nil error
-	slices := []*ssa.Slice{p1.sl, s1.sl, p2.sl, s2.sl}
-	n := 0
-	for _, b := range dec.Blocks {
-		iff, isIf := b.Instrs[len(b.Instrs)-1].(*ssa.If)
-		if !isIf {
+	// reject edges: If whose successor returns a non-nil error; guards of a
+	// helper are examined once, in the helper, against the parameter that
+	// receives the decoder's end bound
+	type scope struct {
+		fn   *ssa.Function
+		end  ssa.Value
+		evs  []rd
+		name string
+	}
+	scopes := []scope{{fn: dec, end: endP, name: dn}}
+	seenHelper := map[*ssa.Function]bool{}
+	for _, x := range evs {
+		if x.f.Call == nil {
+			scopes[0].evs = append(scopes[0].evs, x)
 			continue
 		}
-		for i, s := range b.Succs {
-			isErr := false
-			for ret := range ReturnedValues(dec) {
-				if ret.Block() == s && !nilErrorReturn(ret) {
-					isErr = true
+		g := x.f.Call.Call.StaticCallee()
+		if !seenHelper[g] {
+			seenHelper[g] = true
+			var end ssa.Value
+			for i, a := range x.f.Call.Call.Args {
+				if ssax.Strip(a) == ssa.Value(endP) && i < len(g.Params) {
+					end = g.Params[i]
 				}
 			}
-			if !isErr {
-				continue
+			if end == nil {
+				ctx.Unresolved("C04.S6", ssax.Name(g)+" end bound", "the helper does not receive the decoder's end bound")
+				return
 			}
-			pass := b.Succs[1-i]
-			// protected read: the first slice (in program order) whose block is dominated by the pass edge
-			var prot *ssa.Slice
-			protName := ""
-			for k, sl := range slices {
-				if pass == sl.Block() || pass.Dominates(sl.Block()) {
-					prot = sl
-					protName = []string{"name length prefix", "name bytes", "value length prefix", "value bytes"}[k]
-					break
+			sc := scope{fn: g, end: end, name: ssax.Name(g)}
+			for _, y := range evs {
+				if y.f.Call == x.f.Call {
+					sc.evs = append(sc.evs, y)
 				}
 			}
-			if prot == nil {
+			scopes = append(scopes, sc)
+		}
+	}
+	names := map[ssa.Instruction]string{p1.f.In: "name length prefix", s1.f.In: "name bytes", p2.f.In: "value length prefix", s2.f.In: "value bytes"}
+	for _, sc := range scopes {
+		n := 0
+		for _, b := range sc.fn.Blocks {
+			iff, isIf := b.Instrs[len(b.Instrs)-1].(*ssa.If)
+			if !isIf {
 				continue
 			}
-			n++
-			env := pr.EnvAt(iff)
-			env.AddCond(iff.Cond, i == 0)
-			lo, hi := env.Term(prot.Low), env.Term(prot.High)
-			end := env.Term(endP)
-			// guard ∧ (0 ≤ lo ≤ hi ≤ end) must be infeasible
-			facts := append([]lin.Ineq{}, env.Facts...)
-			facts = append(facts, lin.GE(lo, lin.Const(0), ""), lin.LE(lo, hi, ""), lin.LE(hi, end, ""))
-			exact := !lin.Feasible(facts)
-			ctx.Check(exact, "C04.S6", dn+sprintf(" › reject guard #%d protects the read of the "+protName+" exactly", n), r.IPos(iff),
-				"guard ⇒ the read would leave the header block", "the guard also rejects inputs whose read fits in the header block (e.g. the last header having an empty value): blocks produced by the encoder are refused")
+			for i, s := range b.Succs {
+				isErr := false
+				for ret := range ReturnedValues(sc.fn) {
+					if ret.Block() == s && !nilErrorReturn(ret) {
+						isErr = true
+					}
+				}
+				if !isErr {
+					continue
+				}
+				pass := b.Succs[1-i]
+				// protected read: the first slice (in program order) whose block is dominated by the pass edge
+				var prot *ssa.Slice
+				protName := ""
+				for _, x := range sc.evs {
+					if pass == x.sl.Block() || pass.Dominates(x.sl.Block()) {
+						prot = x.sl
+						protName = names[x.f.In]
+						if sc.fn != dec {
+							protName = map[string]string{"prefix": "length prefix", "payload": "string bytes"}[x.kind]
+						}
+						break
+					}
+				}
+				if prot == nil {
+					continue
+				}
+				n++
+				env := pr.EnvAt(iff)
+				env.AddCond(iff.Cond, i == 0)
+				lo, hi := env.Term(prot.Low), env.Term(prot.High)
+				end := env.Term(sc.end)
+				// guard ∧ (0 ≤ lo ≤ hi ≤ end) must be infeasible
+				facts := append([]lin.Ineq{}, env.Facts...)
+				facts = append(facts, lin.GE(lo, lin.Const(0), ""), lin.LE(lo, hi, ""), lin.LE(hi, end, ""))
+				exact := !lin.Feasible(facts)
+				ctx.Check(exact, "C04.S6", sc.name+sprintf(" › reject guard #%d protects the read of the "+protName+" exactly", n), r.IPos(iff),
+					"guard ⇒ the read would leave the header block", "the guard also rejects inputs whose read fits in the header block (e.g. the last header having an empty value): blocks produced by the encoder are refused")
+			}
 		}
 	}
 }
